@@ -36,7 +36,7 @@ MIN_EVALS = {
     'poly-linear': {'quick': 250, 'thorough': 5000}, 'poly-superposition': {'quick': 120, 'thorough': 2500},
     'fit-num-terms': {'quick': 800, 'thorough': 15000},
     'fit-recovery': {'quick': 400, 'thorough': 7000},
-    'fit-linear': {'quick': 150, 'thorough': 3500},
+    'fit-linear': {'quick': 150, 'thorough': 3500}, 'fit-objects-independent': {'quick': 150, 'thorough': 3500},
     'opd-reproduction': {'quick': 16, 'thorough': 300}, 'opd-reproduction-poly': {'quick': 16, 'thorough': 300},
 }
 ASSUMPTIONS = [
@@ -498,7 +498,16 @@ def check_fitlin(case, rec):
         f = 10.0 ** case['lg']
         a, b = a * f, b * f
     z3 = a * z1 + b * z2
-    c1, c2, c3 = _fit(fam, x, y, z1, N), _fit(fam, x, y, z2, N), _fit(fam, x, y, z3, N)
+    # the three fit objects are kept alive and read AFTER all of them exist (a user comparing fits): what an earlier
+    # object reports must not change when a later fit of the same family is made
+    from optiland.zernike import ZernikeFit
+    F1 = ZernikeFit(np.array(x), np.array(y), np.array(z1), fam, N)
+    c1_early = np.array(F1.coeffs, float).ravel().copy()
+    F2 = ZernikeFit(np.array(x), np.array(y), np.array(z2), fam, N)
+    F3 = ZernikeFit(np.array(x), np.array(y), np.array(z3), fam, N)
+    c1, c2, c3 = (np.asarray(F_.coeffs, float).ravel() for F_ in (F1, F2, F3))
+    rec.check('fit-objects-independent', c1.shape == c1_early.shape and bool(np.array_equal(c1, c1_early, equal_nan=True)),
+              msg=f'{fam}: the coefficients reported by a ZernikeFit changed after two later fits of the same family were made')
     rec.event('fits', 3)
     for cc in (c1, c2, c3):
         if not rec.check('fit-num-terms', cc.size == N, msg=f'ZernikeFit(num_terms={N}).coeffs has {cc.size} entries'):
